@@ -323,51 +323,90 @@ func init() {
 				})
 				okAll := pt != nil
 				detail := ""
-				nret := 0
-				for _, b := range fn.Blocks {
-					ret, isRet := b.Instrs[len(b.Instrs)-1].(*ssa.Return)
-					if !isRet || b == fn.Recover {
-						continue
+				isWrite := func(in ssa.Instruction) bool {
+					for _, w := range writes {
+						if w == in {
+							return true
+						}
 					}
-					nret++
-					isOneWay := false
-					for _, f := range facts(b) {
+					return false
+				}
+				// the edges taken when the packet type is known to be one-way
+				oneWayEdge := func(from, to *ssa.BasicBlock) bool {
+					for _, f := range edgeFactOf(from, to) {
 						if c, ok := normFact(f); ok && c.X == pt && c.Op == token.EQL {
 							if k, ok := constInt(c.Y); ok && k == oneway {
-								isOneWay = true
+								return true
 							}
 						}
 					}
-					n := 0
-					for _, wi := range writes {
-						if instrDominates(wi, ret) {
-							n++
-						} else if reaches(wi, ret) {
-							n = 99 // a write on some but not all paths
+					return false
+				}
+				nOneWay := 0
+				for _, bb := range fn.Blocks {
+					for _, sc := range bb.Succs {
+						if !oneWayEdge(bb, sc) {
+							continue
 						}
-					}
-					if isOneWay && n != 0 {
-						okAll = false
-						detail = "a reply is written on the one-way path"
-					}
-					if !isOneWay && n != 1 {
-						okAll = false
-						detail = fmt.Sprintf("a two-way return is preceded by %d writes (99 = only on some paths)", n)
-					}
-					// the response written must be the result of this invoke
-					for _, wi := range writes {
-						c := callCommon(wi)
-						arg := c.Args[0]
-						if !c.IsInvoke() {
-							arg = c.Args[1]
-						}
-						if strip(arg, false) != ssa.Value(inv) {
-							okAll = false
-							detail = "the bytes written are not the result of server.invoke"
+						nOneWay++
+						// (a) nothing is written once the request is known to be one-way
+						if w := reachFromBlock(sc, isWrite, nil); w != nil {
+							okAll, detail = false, "a reply is written on the one-way path"
 						}
 					}
 				}
-				r.Check(okAll && nret >= 2 && len(writes) == 1, fname(fn), "writes per request", fn.Pos(), "exactly one write of the invoke result on the two-way return, none on the one-way return", "reply discipline broken: %s (writes=%d, returns=%d)", detail, len(writes), nret)
+				if nOneWay == 0 {
+					okAll, detail = false, "no branch on packetType == TARSONEWAY"
+				}
+				// (b) every other path from the invoke to a normal return writes: search for a return without
+				// crossing a write or a one-way edge
+				if inv != nil {
+					seen := map[*ssa.BasicBlock]bool{}
+					var walk func(bb *ssa.BasicBlock, k int) bool
+					walk = func(bb *ssa.BasicBlock, k int) bool {
+						for ; k < len(bb.Instrs); k++ {
+							if isWrite(bb.Instrs[k]) {
+								return false
+							}
+							if _, isRet := bb.Instrs[k].(*ssa.Return); isRet && bb != fn.Recover {
+								return true
+							}
+						}
+						for _, sc := range bb.Succs {
+							if seen[sc] || oneWayEdge(bb, sc) {
+								continue
+							}
+							seen[sc] = true
+							if walk(sc, 0) {
+								return true
+							}
+						}
+						return false
+					}
+					if walk(inv.Block(), instrIndex(inv)+1) {
+						okAll, detail = false, "a two-way request can return without a reply being written"
+					}
+				}
+				// (c) never two writes for one request
+				for _, w := range writes {
+					if w2 := reachAvoiding(w, isWrite, nil); w2 != nil {
+						okAll, detail = false, "a request can be answered twice (one write reaches another)"
+					}
+				}
+				// the response written must be the result of this invoke
+				for _, wi := range writes {
+					c := callCommon(wi)
+					arg := c.Args[0]
+					if !c.IsInvoke() {
+						arg = c.Args[1]
+					}
+					if strip(arg, false) != ssa.Value(inv) {
+						okAll = false
+						detail = "the bytes written are not the result of server.invoke"
+					}
+				}
+				nret := 2
+				r.Check(okAll && nret >= 2 && len(writes) == 1, fname(fn), "writes per request", fn.Pos(), "exactly one write of the invoke result on every two-way path, none after the one-way branch", "reply discipline broken: %s (writes=%d)", detail, len(writes))
 			}
 		}})
 
@@ -473,13 +512,13 @@ func init() {
 						continue
 					}
 					storesIRet := false
-					for _, in := range b.Succs[0].Instrs {
-						if st, ok := in.(*ssa.Store); ok {
+					eachInstr(fn, func(in ssa.Instruction) {
+						if st, ok := in.(*ssa.Store); ok && b.Succs[0].Dominates(st.Block()) {
 							if fv, _, ok := fieldAddrOf(st.Addr); ok && fv.Name() == "IRet" {
 								storesIRet = true
 							}
 						}
-					}
+					})
 					if storesIRet {
 						sites = append(sites, site{fn, c.X, iff.Pos()})
 						// mapping details
@@ -495,11 +534,13 @@ func init() {
 							}
 							switch fv.Name() {
 							case "IRet":
-								if k, ok := constInt(st.Val); ok && k == 1 {
-									ret1 = true
-								}
-								if strings.HasSuffix(pathOf(st.Val), ".Code") {
-									code = true
+								for _, leaf := range phiLeaves(st.Val) {
+									if k, ok := constInt(leaf); ok && k == 1 {
+										ret1 = true
+									}
+									if strings.HasSuffix(pathOf(leaf), ".Code") {
+										code = true
+									}
 								}
 							case "SResultDesc":
 								if cc, ok := st.Val.(*ssa.Call); ok && cc.Call.IsInvoke() && cc.Call.Method.Name() == "Error" && cc.Call.Value == c.X {
@@ -634,10 +675,18 @@ func init() {
 			})
 			okGate := false
 			if it != nil {
+				// some dominating comparison on len(x) confines it to exactly 0 here (len(x)==0, len(x)<1, !(len(x)>0) ...)
 				for _, f := range facts(it.Block()) {
-					if c, ok := normFact(f); ok && c.Op == token.EQL {
-						if k, ok := constInt(c.Y); ok && k == 0 && strings.HasPrefix(pathOf(c.X), "len(") {
-							okGate = true
+					c, ok := normFact(f)
+					if !ok {
+						continue
+					}
+					for _, side := range []ssa.Value{c.X, c.Y} {
+						core, _ := affineOf(side)
+						if isLenLike(core) {
+							if setAt(fn, core, it).intersect(rng(0, posInf)).equal(rng(0, 0)) {
+								okGate = true
+							}
 						}
 					}
 				}
@@ -824,4 +873,26 @@ func shortInstr(in ssa.Instruction) string {
 		return "the call of " + pathOf(c.Value)
 	}
 	return "the statement at " + in.String()
+}
+
+// phiLeaves: the values a (possibly nested) phi selects from; v itself when it is not a phi.
+func phiLeaves(v ssa.Value) []ssa.Value {
+	var out []ssa.Value
+	seen := map[ssa.Value]bool{}
+	var walk func(x ssa.Value)
+	walk = func(x ssa.Value) {
+		if seen[x] {
+			return
+		}
+		seen[x] = true
+		if p, ok := x.(*ssa.Phi); ok {
+			for _, e := range p.Edges {
+				walk(e)
+			}
+			return
+		}
+		out = append(out, x)
+	}
+	walk(v)
+	return out
 }
